@@ -255,4 +255,121 @@ theorem crosstabDask2d_eq_numpy (always sortedRows : Bool) (zones : Nat → X κ
     rw [← hnp]
     simp only [List.length_map, List.map_map, Function.comp_def]
 
+/-! ### 3-D (`agg='count'`) -/
+
+section d3
+variable {ν : Type}
+
+/-- a column family indexed by the selected layers: `T l z` for the layer found under label `c` -/
+def colsOf (layers : List (γ × (Nat → ν))) (cats : List γ) (W : List κ) (T : (γ × (Nat → ν)) → κ → Nat) : List (List Nat) :=
+  cats.map (fun c => optCol (layers.find? (fun l => l.1 == c)) (fun l => W.map (T l)))
+
+theorem zipWith_colsOf (layers : List (γ × (Nat → ν))) (cats : List γ) (W : List κ)
+    (T1 T2 : (γ × (Nat → ν)) → κ → Nat) :
+    List.zipWith (List.zipWith (· + ·)) (colsOf layers cats W T1) (colsOf layers cats W T2)
+      = colsOf layers cats W (fun l z => T1 l z + T2 l z) := by
+  unfold colsOf
+  rw [zipWith_map_map]
+  apply List.map_congr_left
+  intro c _
+  cases layers.find? (fun l => l.1 == c) with
+  | none => rfl
+  | some l => simp only [optCol]; rw [zipWith_map_map]
+
+theorem foldl_colsOf {β : Type} (layers : List (γ × (Nat → ν))) (cats : List γ) (W : List κ) (bs : List β)
+    (tb : β → (γ × (Nat → ν)) → κ → Nat) (T : (γ × (Nat → ν)) → κ → Nat) :
+    (bs.map (fun b => colsOf layers cats W (tb b))).foldl (List.zipWith (List.zipWith (· + ·))) (colsOf layers cats W T)
+      = colsOf layers cats W (fun l z => T l z + (bs.map (fun b => tb b l z)).sum) := by
+  induction bs generalizing T with
+  | nil => simp
+  | cons b bs ih =>
+    simp only [List.map_cons, List.foldl_cons, List.sum_cons]
+    rw [zipWith_colsOf, ih]
+    unfold colsOf
+    apply List.map_congr_left
+    intro c _
+    cases layers.find? (fun l => l.1 == c) with
+    | none => rfl
+    | some l =>
+      simp only [optCol]
+      apply List.map_congr_left
+      intro z _
+      omega
+
+/-- **3-D block tables add up**: dask `crosstab` with `agg='count'` on 3-D values equals the NumPy table -/
+theorem crosstabDask3d_eq_numpy (sortedRows : Bool) (zones : Nat → X κ) (layers : List (γ × (Nat → ν)))
+    (valid : ν → Bool) (cells perm : List Nat) (zoneIds : Option (List κ)) (catIds : Option (List γ))
+    (blocks : List Block) (hb : GoodBlocks zones cells blocks) (hne : blocks ≠ [])
+    (hp : SortsCells zones cells perm) :
+    crosstabDask3d true sortedRows zones layers valid cells zoneIds catIds blocks
+      = crosstabNumpy3d true sortedRows zones layers valid List.length cells zoneIds catIds perm := by
+  have hu := uniqueZones_covers zones cells
+  cases blocks with
+  | nil => exact absurd rfl hne
+  | cons b0 bs =>
+    unfold crosstabDask3d crosstabNumpy3d
+    rw [if_neg (by rw [blocks_ok _ hb.aligned]; simp)]
+    simp only [List.map_cons]
+    -- every block's columns
+    have hblock : ∀ b ∈ b0 :: bs,
+        (selectIds (layers.map Prod.fst) catIds).map (fun c => optCol (layers.find? (fun l => l.1 == c))
+          (fun l => layerCol true (Block.fn b.zc zones) (Block.fn b.vc l.2) valid List.length
+              (uniqueZones zones cells) (fun u => (selectIds (uniqueZones zones cells) zoneIds).contains u) b.perm))
+        = colsOf layers (selectIds (layers.map Prod.fst) catIds)
+            ((uniqueZones zones cells).filter (fun u => (selectIds (uniqueZones zones cells) zoneIds).contains u))
+            (fun l z => (zoneCells zones l.2 valid b.zc z).length) := by
+      intro b hbm
+      unfold colsOf
+      apply List.map_congr_left
+      intro c _
+      cases layers.find? (fun l => l.1 == c) with
+      | none => rfl
+      | some l =>
+        simp only [optCol]
+        rw [hb.aligned b hbm, layerCol_fixed (Block.fn b.zc zones) (Block.fn b.zc l.2) valid List.length
+          (List.range b.zc.length) b.perm _ _ (hb.sorts b hbm) (block_covers zones cells b.zc _ hu (hb.sub b hbm))]
+        apply List.map_congr_left
+        intro z _
+        rw [(zoneCells_perm _ _ valid b.perm (List.range b.zc.length) (hb.sorts b hbm).isPerm z).length_eq,
+          zoneCells_block]
+    rw [hblock b0 (by simp)]
+    have hrest : bs.map (fun b => (selectIds (layers.map Prod.fst) catIds).map (fun c =>
+          optCol (layers.find? (fun l => l.1 == c))
+          (fun l => layerCol true (Block.fn b.zc zones) (Block.fn b.vc l.2) valid List.length
+              (uniqueZones zones cells) (fun u => (selectIds (uniqueZones zones cells) zoneIds).contains u) b.perm)))
+        = bs.map (fun b => colsOf layers (selectIds (layers.map Prod.fst) catIds)
+            ((uniqueZones zones cells).filter (fun u => (selectIds (uniqueZones zones cells) zoneIds).contains u))
+            (fun l z => (zoneCells zones l.2 valid b.zc z).length)) := by
+      apply List.map_congr_left
+      intro b hbm
+      exact hblock b (List.mem_cons_of_mem _ hbm)
+    rw [hrest, foldl_colsOf]
+    -- the NumPy columns
+    have hnp : (selectIds (layers.map Prod.fst) catIds).map (fun c =>
+          optCol (layers.find? (fun l => l.1 == c))
+          (fun l => layerCol true zones l.2 valid List.length (uniqueZones zones cells)
+              (fun u => (selectIds (uniqueZones zones cells) zoneIds).contains u) perm))
+        = colsOf layers (selectIds (layers.map Prod.fst) catIds)
+            ((uniqueZones zones cells).filter (fun u => (selectIds (uniqueZones zones cells) zoneIds).contains u))
+            (fun l z => (zoneCells zones l.2 valid b0.zc z).length
+              + (bs.map (fun b => (zoneCells zones l.2 valid b.zc z).length)).sum) := by
+      unfold colsOf
+      apply List.map_congr_left
+      intro c _
+      cases layers.find? (fun l => l.1 == c) with
+      | none => rfl
+      | some l =>
+        simp only [optCol]
+        rw [layerCol_fixed zones l.2 valid List.length cells perm _ _ hp hu]
+        apply List.map_congr_left
+        intro z _
+        have hperm : ((b0 :: bs).map (fun b => b.zc)).flatten.Perm perm := hb.part.trans hp.isPerm.symm
+        have := total_flatten zones l.2 valid ((b0 :: bs).map (fun b => b.zc)) z
+        simp only [List.map_cons, List.map_map, Function.comp_def, List.sum_cons] at this
+        rw [← this]
+        exact (zoneCells_perm zones l.2 valid _ _ hperm z).length_eq.symm
+    rw [hnp]
+
+end d3
+
 end XrsVerif.Zonal
